@@ -2,6 +2,7 @@ import Poulpy.Driver.Util
 import Poulpy.Model.Ckks
 import Poulpy.Model.CkksData
 import Poulpy.Model.CkksMulData
+import Poulpy.Model.CkksConv
 import Poulpy.Driver.Ep
 /-!
 Wire format of the `ckks` command (model side; `harness/src/cmd_ckks.rs` prints the same form).
@@ -201,7 +202,12 @@ def parseXOp (n : Nat) (t : String) : Option XOp :=
     | ["square_assign", d] => some (.squareAssign (nat! d))
     | ["mul_pt_znx", d, a, pd, pb, pq, l] => some (.mulPt (nat! d) (nat! a) (pt! pd pb pq) (parsePt n (pt! pd pb pq) l))
     | ["mul_pt_znx_assign", d, pd, pb, pq, l] => some (.mulPtAssign (nat! d) (pt! pd pb pq) (parsePt n (pt! pd pb pq) l))
+    | ["mul_add_ct", d, a, b] => some (.mulAdd false (nat! d) (nat! a) (nat! b))
+    | ["mul_sub_ct", d, a, b] => some (.mulAdd true (nat! d) (nat! a) (nat! b))
+    | ["mul_add_pt_znx", d, a, pd, pb, pq, l] => some (.mulAddPt false (nat! d) (nat! a) (pt! pd pb pq) (parsePt n (pt! pd pb pq) l))
+    | ["mul_sub_pt_znx", d, a, pd, pb, pq, l] => some (.mulAddPt true (nat! d) (nat! a) (pt! pd pb pq) (parsePt n (pt! pd pb pq) l))
     | "add_many" :: d :: as => some (.addMany (nat! d) (as.map nat!))
+    | "mul_many" :: d :: as => some (.mulMany (nat! d) (as.map nat!))
     | "dot_ct" :: d :: k :: rest =>
       let k := nat! k
       if rest.length = 2 * k then some (.dotCt (nat! d) ((rest.take k).map nat!) ((rest.drop k).map nat!)) else none
@@ -219,6 +225,7 @@ def parseXOp (n : Nat) (t : String) : Option XOp :=
 def XOp.dstSlot : XOp → Nat
   | .lin op => LOp.dstSlot op
   | .mul d _ _ | .mulAssign d _ | .square d _ | .squareAssign d | .mulPt d _ _ _ | .mulPtAssign d _ _
+  | .mulAdd _ d _ _ | .mulAddPt _ d _ _ _ | .mulMany d _
   | .addMany d _ | .dotCt d _ _ | .dotPt d _ _ _ | .rot d _ _ | .rotAssign d _ | .conj d _ | .conjAssign d => d
 
 def showDstX (p : DPool) : XOp → String
@@ -256,7 +263,44 @@ def parseKey (n : Nat) (s : String) : Core.GGLWE :=
     | _ => { base2k := 0, n := n, colsIn := 0, colsOut := 0, dsize := 1, dnum := 0, size := 0, cells := [] }
   | _ => { base2k := 0, n := n, colsIn := 0, colsOut := 0, dsize := 1, dnum := 0, size := 0, cells := [] }
 
+/-- `m:e+m:e…` = the exact sum of the terms, `nan`, `inf`, `-inf`; `-` = absent -/
+def parseFVal (s : String) : Option FVal :=
+  if s == "nan" then some .nan
+  else if s == "inf" then some (.inf false)
+  else if s == "-inf" then some (.inf true)
+  else if s == "-" then none
+  else
+    let terms : List (Int × Int) := (s.splitOn "+").filterMap (fun t =>
+      match t.splitOn ":" with
+      | [m, e] => some (int! m, int! e)
+      | _ => none)
+    let emin := terms.foldl (fun a t => min a t.2) 0
+    some (.fin (terms.foldl (fun a t => a + t.1 * 2 ^ (t.2 - emin).toNat) 0) emin)
+
+def showDigits (l : List Int) : String := ".".intercalate (l.map toString)
+
+/-- `toznx float=… form=vec|cst base2k= delta= budget= [k=] vals=…` (see `Model/CkksConv.lean`) -/
+def handleToZnx (ts : List String) : String :=
+  let ty : FloatTy := if kv ts "float" == some "f128" then .f128 else .f64
+  let b := kvNat ts "base2k"
+  let md : Meta := ⟨kvNat ts "delta", kvNat ts "budget"⟩
+  let raw := (((kv ts "vals").getD "").splitOn ";").filter (fun s => !s.isEmpty)
+  let vals := raw.map parseFVal
+  if kv ts "form" == some "cst" then
+    match toZnxCst ty b (kvNat ts "k") md.logDelta (vals.getD 0 none) (vals.getD 1 none) with
+    | .ok (r, i, m) =>
+      let sh : Option (List Int) → String := fun | none => "-" | some l => showDigits l
+      s!"ok {sh r}/{sh i} meta={m.logDelta}.{m.logBudget}"
+    | .err e => s!"err:{e}"
+    | .panic p => s!"panic:{p}"
+  else
+    match toZnxVec ty b md vals.length (vals.map (fun v => v.getD (.fin 0 0))) with
+    | .ok ds => "ok " ++ ",".intercalate (ds.map showDigits)
+    | .err e => s!"err:{e}"
+    | .panic p => s!"panic:{p}"
+
 def handle (ts : List String) : String :=
+  if ts.head? == some "toznx" then handleToZnx ts else
   let env : Env := ⟨kvNat ts "base2k", kvInts ts "keys", kvNat ts "maxprec"⟩
   let pool := parsePool ((kv ts "pool").getD "")
   let ops := ((kv ts "ops").getD "").splitOn ";" |>.filter (fun s => !s.isEmpty)
